@@ -63,6 +63,17 @@ def targetSegs (vp : Path) (target : String) : List String :=
     if rest = "" then [] else comps rest                       -- kept verbatim, never cleaned
   else (cleanComps true (vp.dropLast ++ comps target)).2         -- path.Clean(path.Join(path.Dir(virtualPath), target))
 
+/-- the type switch of the loop body: `handleDir` / `handleFile` / `handleSymlink` as acceptance tests -/
+def classify (limit : Nat) (r : RawEntry) (vp segs : Path) (isWh : Bool) : PEntry :=
+  match r.typ with
+  | 'd' => ⟨⟨vp, .dir, isWh, r.mode, 0, 0, []⟩, segs, .accept⟩
+  | 'f' => ⟨⟨vp, .file, isWh, r.mode, r.size, r.cid, []⟩, segs, if r.size ≥ limit then .big else .accept⟩
+  | 's' | 'h' =>
+    if r.link = "" then ⟨⟨vp, .link, isWh, r.mode, 0, 0, []⟩, segs, .fatal⟩
+    else if targetOutsideRoot vp r.link then ⟨⟨vp, .link, isWh, r.mode, 0, 0, []⟩, segs, .badlink⟩
+    else ⟨⟨vp, .link, isWh, r.mode, 0, 0, targetSegs vp r.link⟩, segs, .accept⟩
+  | _ => ⟨⟨vp, .link, isWh, r.mode, 0, 0, []⟩, segs, .other⟩
+
 def normEntry (limit : Nat) (r : RawEntry) : Option PEntry :=
   let c := clean r.name
   -- cleanedFilePath = TrimPrefix(Clean(name), "/"); "" / "." / ".." / "../x" are skipped
@@ -72,14 +83,7 @@ def normEntry (limit : Nat) (r : RawEntry) : Option PEntry :=
   let dir := segs.dropLast
   let isWh := base.startsWith ".wh."
   let vp : Path := if r.typ = 'd' || !isWh then segs else whVirtual dir (base.drop 4).toString
-  match r.typ with
-  | 'd' => some ⟨⟨vp, .dir, isWh, r.mode, 0, 0, []⟩, segs, .accept⟩
-  | 'f' => some ⟨⟨vp, .file, isWh, r.mode, r.size, r.cid, []⟩, segs, if r.size ≥ limit then .big else .accept⟩
-  | 's' | 'h' =>
-    if r.link = "" then some ⟨⟨vp, .link, isWh, r.mode, 0, 0, []⟩, segs, .fatal⟩
-    else if targetOutsideRoot vp r.link then some ⟨⟨vp, .link, isWh, r.mode, 0, 0, []⟩, segs, .badlink⟩
-    else some ⟨⟨vp, .link, isWh, r.mode, 0, 0, targetSegs vp r.link⟩, segs, .accept⟩
-  | _ => some ⟨⟨vp, .file, isWh, r.mode, 0, 0, []⟩, segs, .other⟩
+  some (classify limit r vp segs isWh)
 
 def normLayer (limit : Nat) (l : List RawEntry) : List PEntry := l.filterMap (normEntry limit)
 
